@@ -19,11 +19,16 @@ schedules of any number of threads.  Tie:
       ones; Coq runs `macro_run` under the SAME schedule and compares the
       observations and whether all threads finished.
 Oracle: tramp.oracle, a direct predicate of the statement on the raw trace of the
-implementation (nested / wrong thread / early / cancelled-ran / order / lost)."""
+implementation (nested / wrong thread / early / cancelled-ran / order / lost).
+Cancellation goes through the PUBLIC handle (the disposable returned by the schedule call) whenever
+that call has returned; half of the sampled / random histories hand their relative and absolute
+times over as float or int seconds (same model history: the representation must not matter); every
+schedule call passes a `state` token and the action records whether it got it back."""
 import ast
 import itertools
 import json
 import os
+import random
 
 import k3
 import lib
@@ -132,7 +137,32 @@ def gen_k1(tier, rng):
         scheds = rng.choice([[["TS", 0]], [["CTS"]], [["TS", 0], ["TS", 1], ["CT", 0], ["CTS"]]])
         g = tramp.Gen(rng, scheds, unit=rng.choice([U, 250000, 1000, 1]), max_depth=rng.choice([1, 2, 3]))
         out.append((rng.choice([0, 0, U]), tramp.relabel([g.history(rng.randrange(1, 7))])[0], "random"))
+    # time representation: every timed letter of the alphabet alone and after a sleep with float / int
+    # seconds, and half of the sampled / random histories with a random mix (own generator: the
+    # histories themselves stay those of the seed)
+    rrep = random.Random(rng.getrandbits(32))
+    out = [(c0, tramp.vary_rep(h, rrep) if origin != "exhaustive1" and origin != "exhaustive2" and rrep.random() < 0.5
+            else h, origin) for (c0, h, origin) in out]
+    for a in A:
+        for rep in ("f", "i"):
+            v = tramp.vary_rep([a], _Always(rep), p=1.0)
+            if v != [a]:
+                out.append((0, tramp.relabel([v])[0], "representation"))
+                out.append((U, tramp.relabel([[["sleep", U // 2]] + v + [["cancel", 0]]])[0], "representation"))
     return out
+
+
+class _Always:
+    """stand-in for the generator of tramp.vary_rep: always the given representation"""
+
+    def __init__(self, rep):
+        self.rep = rep
+
+    def random(self):
+        return 0.0
+
+    def choice(self, xs):
+        return self.rep
 
 
 def gen_k3(tier, rng):
@@ -158,6 +188,9 @@ def gen_k3(tier, rng):
         g = tramp.Gen(rng, scheds, unit=U, max_depth=rng.choice([1, 2]), p_raise=0.02)
         hs = tramp.relabel([g.history(rng.randrange(1, 4)), g.history(rng.randrange(1, 4))])
         out.append((0, hs, "random", 1 if tier == "quick" else 2, 60 if tier == "quick" else 150))
+    rrep = random.Random(rng.getrandbits(32))
+    out = [(c0, [tramp.vary_rep(h, rrep) for h in hs] if origin == "random" and rrep.random() < 0.5 else hs,
+            origin, b, lim) for (c0, hs, origin, b, lim) in out]
     return out
 
 
@@ -207,6 +240,26 @@ def run(chk):
             "ran>=2": 0, "equal_due_pairs": 0}
     failures = []
     nontrivial = set()
+    stats = {"cancel_via_public_handle": 0, "cancel_via_item_before_the_call_returned": 0,
+             "cancel_by_handle_then_not_run": 0, "time_representation": {}, "state_token_received": 0,
+             "state_token_not_received": 0, "state_mismatch_first": None}
+
+    def account(trace, what):
+        st = trace[-1]
+        assert st[0] == "stats"
+        stats["cancel_via_public_handle"] += st[1]["handle"]
+        stats["cancel_via_item_before_the_call_returned"] += st[1]["item"]
+        for k, v in st[2].items():
+            stats["time_representation"][k] = stats["time_representation"].get(k, 0) + v
+        stats["state_token_received"] += st[3]
+        stats["state_token_not_received"] += st[4]
+        if st[4] and stats["state_mismatch_first"] is None:
+            stats["state_mismatch_first"] = what
+        started = {e[1] for e in trace if e[0] == "start"}
+        labels = {e[1]: e[5] for e in trace if e[0] == "create"}
+        for e in trace:
+            if e[0] == "cancel" and e[3] == "handle" and labels.get(e[1]) not in started:
+                stats["cancel_by_handle_then_not_run"] += 1
 
     # ---- structure of the lock blocks ---------------------------------
     try:
@@ -229,6 +282,7 @@ def run(chk):
     gal1 = []
     for (c0, h, origin) in cases1:
         obs, trace = tramp.run_k1(c0, h)
+        account(trace, {"mode": "k1", "c0": c0, "history": h})
         chk.cov["evaluations"] += 1
         hist["k1_origin"][origin] = hist["k1_origin"].get(origin, 0) + 1
         for f in features([h]):
@@ -271,6 +325,7 @@ def run(chk):
             if key in seen:
                 continue
             seen.add(key)
+            account(trace, {"mode": "k3", "c0": c0, "histories": hs, "schedule": sched})
             chk.cov["evaluations"] += 1
             hist["k3_schedules"] += 1
             if npre > 0:
@@ -328,8 +383,16 @@ def run(chk):
                        "scheduler objects of all three kinds, time units 1 s / 0.25 s / 1 ms / 1 us).  K3: 8 fixed "
                        "two-thread scenarios with all schedules up to 2 (thorough: 3) preemptions, random two-thread "
                        "histories with all schedules up to 1 (thorough: 2) preemptions (capped) and seeded random "
-                       "schedules.  non-trivial = distinct (history[, schedule]) in which at least two actions ran")
+                       "schedules.  Cancellation is issued through the disposable RETURNED by the schedule call "
+                       "(the internal ScheduledItem.cancel only while that call has not returned); every timed "
+                       "alphabet letter alone / after a sleep with float and int seconds, and half of the sampled, "
+                       "random and K3-random histories with a random mix of timedelta/datetime, float and int "
+                       "seconds (the model history is the same: the representation must not change any "
+                       "observation); every schedule call passes a fresh state token (received-back count in "
+                       "`api_surface`; the statement is silent about `state`, so a mismatch is recorded, not "
+                       "flagged).  non-trivial = distinct (history[, schedule]) in which at least two actions ran")
     chk.cov["input_distribution"] = hist
+    chk.cov["api_surface"] = stats
     chk.cov["lock_shape"] = shape
     chk.add_samples([{"mode": "k1", "c0": c[0], "history": c[1]} for c in cases1[::max(1, len(cases1) // 4)]][:4])
     chk.add_samples([{"mode": "k3", "histories": i[0], "schedule": i[1]} for i in info3[::max(1, len(info3) // 2)]])
@@ -339,12 +402,16 @@ def run(chk):
                        "and K3 correspondences, not extracted); heapq is abstracted as a list sorted by the tuple "
                        "order",
                        "harness/tramp.py: controlled clock (default_now, Condition.wait rebound in the imported "
-                       "modules), recording subclass of ScheduledItem (observation only), spies; harness/k3.py: "
+                       "modules), recording subclass of ScheduledItem (observation only; it also tells which item a "
+                       "schedule call created, so that the handle the call RETURNS can be disposed by `cancel r`; the "
+                       "item's own cancel() is used only while that call has not returned), spies; harness/k3.py: "
                        "baton controller (self-tested in this run)",
                        "atomicity: one micro-step = one `with self._lock` block or one unlocked piece with at most "
                        "one shared access; the lock structure of trampoline.py is compared with the modelled one by "
                        "an AST pass on every run; SingleAssignmentDisposable's own lock is treated as atomic"],
-        assumptions=["time values are whole microseconds of moderate size; the clock only moves when an action "
+        assumptions=["float / int second representations are of whole-microsecond values small enough for the "
+                     "conversion to be exact (the model works in microseconds and does not see the representation)",
+                     "time values are whole microseconds of moderate size; the clock only moves when an action "
                      "sleeps, when Condition.wait times out, or between micro-steps (Tick)",
                      "K3 explores interleavings at lock-operation granularity (bounded preemptions); the theorems "
                      "cover all interleavings of the model's micro-steps",
@@ -370,4 +437,6 @@ def replay(chk, path):
     print("observed", obs)
     for sig, detail in bad:
         print("FAILS", sig, detail)
+    if bad:
+        print(f"VIOLATION property=C30 replay={path}")
     return 1 if bad else 0
